@@ -142,7 +142,7 @@ func (rn *runner) history(length int) {
 			if len(ips) > 0 && e.Rng.Intn(8) != 0 {
 				ip = ips[e.Rng.Intn(len(ips))]
 			}
-			op = gi.Op{Kind: "admres", IP: ip, Key: "pool__reserved-for-node_", Policy: e.Rng.Intn(3), Plan: gi.NoPlan()}
+			op = gi.Op{Kind: "admres", IP: ip, Key: gi.ReservationKey(e.Rng), Policy: e.Rng.Intn(3), Plan: gi.NoPlan()}
 			if v.HasPending(ip) {
 				op = gi.Op{Kind: "deliver", Plan: gi.NoPlan()}
 			}
@@ -158,14 +158,15 @@ func (rn *runner) history(length int) {
 		case x < 50 && len(v.Pend) > 0:
 			// aim an allocation at an address whose reservation event is still on its way
 			ev := v.Pend[e.Rng.Intn(len(v.Pend))]
+			aimKey := []string{"dp_ns1_web_web-0", ev.Key, ""}[e.Rng.Intn(3)]
 			if e.Rng.Intn(2) == 0 {
-				op = gi.Op{Kind: "aspec", Key: "dp_ns1_web_web-0", IP: ev.IP, Node: "n1", UID: "u1", Plan: gi.NoPlan()}
+				op = gi.Op{Kind: "aspec", Key: aimKey, IP: ev.IP, Node: "n1", UID: "u1", Plan: gi.NoPlan()}
 			} else {
 				sub := "10.0.1.0/24"
 				if p := gi.PoolOfIP(v.Pools, ev.IP); p != nil && len(p.Subnets) > 0 {
 					sub = p.Subnets[0].Str
 				}
-				op = gi.Op{Kind: "arng", Key: "dp_ns1_web_web-1", Subnet: sub, Ranges: [][][2]uint32{{{ev.IP, ev.IP}}}, Node: "n1", UID: "u1",
+				op = gi.Op{Kind: "arng", Key: aimKey, Subnet: sub, Ranges: [][][2]uint32{{{ev.IP, ev.IP}}}, Node: "n1", UID: "u1",
 					Plan: gi.NoPlan()}
 			}
 		default:
@@ -177,6 +178,22 @@ func (rn *runner) history(length int) {
 		st := s.Do(op)
 		rn.Note(&st)
 		rn.monitor(s, &st)
+		if op.IsAlloc() {
+			for _, ev := range st.PendB {
+				hit := ev.Assign && (ev.IP == op.IP && op.Kind == "aspec" || op.Kind == "arng" && len(op.Ranges) == 1 && op.Ranges[0][0][0] == ev.IP)
+				if hit {
+					switch {
+					case ev.Key == "":
+						rn.R.Hit("aimed-at-undelivered-reservation:no-key:" + st.Class)
+					case ev.Key == op.Key:
+						rn.R.Hit("aimed-at-undelivered-reservation:same-key:" + st.Class)
+					default:
+						rn.R.Hit("aimed-at-undelivered-reservation:other-key:" + st.Class)
+					}
+					break
+				}
+			}
+		}
 		if st.Class == "ok" && op.IsAlloc() {
 			okAllocs++
 		}
